@@ -1,4 +1,5 @@
 import JaqalProofs.Lemmas.UsedQubitsSpec
+import JaqalProofs.Lemmas.UsedQubitsOrderMacros
 /-!
 # C13_exact against the specification (`Spec/Sem.lean`)
 
@@ -321,6 +322,98 @@ theorem C13_exact_bridge (c : Circuit) (hwf : ExpandMacros.WellFormed c = true) 
   rw [hq] at h1; cases h1
   exact (h2 r i).symm.trans (C13_exact_spec c hwf hok u allQ sem h hq hs r i)
 
+/-! ### Branch order: parallel blocks anywhere in the circuit, macro bodies included -/
+
+/-- `c'` is `c` with the branches of any parallel blocks — of the body AND of the macro bodies — permuted. -/
+structure PermParC (c c' : Circuit) : Prop where
+  body : PermPar c.body c'.body
+  macros : MacrosPerm c.macros c'.macros
+  registers : c'.registers = c.registers
+
+theorem PermParC.symm {c c' : Circuit} (h : PermParC c c') : PermParC c' c :=
+  ⟨permPar_symm h.body, h.macros.symm, h.registers.symm⟩
+
+theorem defaultFuel_permC {c c' : Circuit} (hp : PermParC c c') :
+    defaultFuel c'.macros c'.body = defaultFuel c.macros c.body := by
+  simp only [defaultFuel, ← stmtDepth_perm hp.body, ← macros_depth_sum hp.macros]
+
+/-- **C13 (branch order, used sets; macro bodies included).** The analysis of the permuted circuit is defined and
+returns the same sets — the walk goes through the (permuted) callee bodies at every macro call. -/
+theorem C13_orderC_used (c c' : Circuit) (hp : PermParC c c') (u : Used) (h : usedCircuit c = .ok u) :
+    ∃ u', usedCircuit c' = .ok u' ∧ ∀ r i, Mem u r i ↔ Mem u' r i := by
+  obtain ⟨allQ, h1, h2, h3⟩ := usedCircuitV_ok false c u h
+  obtain ⟨u1, hu1⟩ := ok_macros allQ hp.macros _ [] c.body ⟨u, h3⟩
+  obtain ⟨u', hu'⟩ := ok_perm allQ c'.macros hp.body _ [] ⟨u1, hu1⟩
+  refine ⟨u', ?_, fun r i => ?_⟩
+  · simp only [usedCircuit, usedCircuitV, hp.registers, h1, bind, Except.bind, defaultFuel_permC hp]
+    exact hu'
+  · rw [usedStmtF_mem_iff false allQ h2 _ _ _ _ _ h3, usedStmtF_mem_iff false allQ h2 _ _ _ _ _ hu',
+      acts_macros_iff allQ hp.macros]
+    exact acts_perm allQ c'.macros hp.body [] r i
+
+/-- **C13 (branch order, acceptance; macro bodies included).** -/
+theorem C13_orderC_accept (c c' : Circuit) (hp : PermParC c c') (u : Used) (h : usedCircuit c = .ok u) :
+    checkDisjoint c = .ok () ↔ checkDisjoint c' = .ok () := by
+  obtain ⟨u', hu', _⟩ := C13_orderC_used c c' hp u h
+  obtain ⟨allQ, h1, h2, _⟩ := C13_reject c u h
+  obtain ⟨allQ', h1', h2', _⟩ := C13_reject c' u' hu'
+  have : allQ' = allQ := by
+    rw [hp.registers, h1] at h1'; cases h1'; rfl
+  subst this
+  rw [h2, h2']
+  have hc : Conflict allQ' c.macros [] c.body ↔ Conflict allQ' c'.macros [] c'.body :=
+    ⟨fun x => (conflict_perm allQ' c'.macros hp.body []).1 (conflict_macros allQ' hp.macros x),
+     fun x => conflict_macros allQ' hp.macros.symm ((conflict_perm allQ' c'.macros hp.body []).2 x)⟩
+  have hr : Repeat allQ' c.macros [] c.body ↔ Repeat allQ' c'.macros [] c'.body :=
+    ⟨fun x => (repeat_perm allQ' c'.macros hp.body []).1 (repeat_macros allQ' hp.macros x),
+     fun x => repeat_macros allQ' hp.macros.symm ((repeat_perm allQ' c'.macros hp.body []).2 x)⟩
+  exact and_congr (not_congr hc) (not_congr hr)
+
+/-- … and the rejection, when there is one, is of the same kind unless both kinds are present -/
+theorem C13_orderC_reject (c c' : Circuit) (hp : PermParC c c') (u : Used) (h : usedCircuit c = .ok u) :
+    (∃ e, checkDisjoint c = .error e) ↔ (∃ e, checkDisjoint c' = .error e) := by
+  have hacc := C13_orderC_accept c c' hp u h
+  constructor
+  · rintro ⟨e, he⟩
+    cases hc : checkDisjoint c' with
+    | error e' => exact ⟨e', rfl⟩
+    | ok x => cases x; rw [hacc.2 hc] at he; cases he
+  · rintro ⟨e, he⟩
+    cases hc : checkDisjoint c with
+    | error e' => exact ⟨e', rfl⟩
+    | ok x => cases x; rw [hacc.1 hc] at he; cases he
+
+/-! #### the state vector: any permutation of any number of pairwise independent branches -/
+
+open Jaqal.Emulator in
+theorem indep_symm {R : Type} {a b : Option (Nat → Nat → R) × List Nat} (h : Indep a b) : Indep b a :=
+  ⟨h.2.1, h.1, fun q hq hq' => h.2.2 q hq' hq⟩
+
+open Jaqal.Emulator in
+/-- **C13 (branch order, state vector; any number of branches, wherever the block sits).** The serialised gates of the
+branches of a parallel block — in the body or in an expanded macro body: `pre` / `post` are whatever is executed before
+and after — may be written in any order when the branches are pairwise independent (which the disjointness check
+establishes, `C13_indep_of_disjoint`). -/
+theorem C13_order_state_perm {R : Type} [CommSemiring R]
+    (bs bs' : List (List (Option (Nat → Nat → R) × List Nat))) (hp : bs.Perm bs')
+    (hind : bs.Pairwise (fun l₁ l₂ => ∀ a ∈ l₁, ∀ b ∈ l₂, Indep a b))
+    (pre post : List (Option (Nat → Nat → R) × List Nat)) :
+    runGatesFn (pre ++ bs'.flatten ++ post) = runGatesFn (pre ++ bs.flatten ++ post) := by
+  induction hp generalizing pre with
+  | nil => rfl
+  | cons x _ ih =>
+    have := ih (List.pairwise_cons.1 hind).2 (pre ++ x)
+    simpa [List.flatten_cons, List.append_assoc] using this
+  | swap x y l =>
+    -- `y :: x :: l` against `x :: y :: l`
+    obtain ⟨hy, _⟩ := List.pairwise_cons.1 hind
+    have hyx : ∀ a ∈ y, ∀ b ∈ x, Indep a b := hy x List.mem_cons_self
+    have := C03_interleave pre (l.flatten ++ post) y x (x ++ y) (interleave_swap y x) hyx
+    simpa [List.flatten_cons, List.append_assoc] using this
+  | trans h1 _ ih1 ih2 =>
+    have hind2 := (h1.pairwise_iff (fun {l₁ l₂} h a ha b hb => indep_symm (h b hb a ha))).1 hind
+    rw [ih2 hind2 pre, ih1 hind pre]
+
 /-! ### Non-vacuity -/
 section Examples
 
@@ -358,18 +451,18 @@ theorem e1_specOK : SpecOK e1 := by
     · refine ⟨by decide, ?_⟩
       intro a ha
       simp only [List.mem_cons, List.not_mem_nil, or_false] at ha
-      rcases ha with rfl | rfl <;> exact ⟨(by show ValidChain R4; decide), goodIdx_of_intOf rfl⟩
+      rcases ha with rfl | rfl <;> exact ⟨(by show Builder.RegT R4 = true; rfl), goodIdx_of_intOf rfl⟩
     · refine ⟨by decide, ?_⟩
       intro a ha
       simp only [List.mem_cons, List.not_mem_nil, or_false] at ha
       rcases ha with rfl | rfl
-      · show ValidChain aliasA'; decide
+      · show Builder.RegT aliasA' = true; rfl
       · trivial
     · refine ⟨by decide, ?_⟩
       intro a ha
       simp only [List.mem_cons, List.not_mem_nil, or_false] at ha
       subst ha
-      show ValidChain aliasB'; decide
+      show Builder.RegT aliasB' = true; rfl
     · exact ⟨by decide, by simp⟩
   · intro m hm x hx
     simp only [e1, List.mem_cons, List.not_mem_nil, or_false] at hm
@@ -416,6 +509,25 @@ example : ∀ r i, Mem [("r", [2, 0, 1, 3])] r i ↔
       .gate "RG" [.reg [("r", 2)]], .gate "prepare_all" []])
     (by rfl) (by rfl) (by rfl)
 
+/-- a parallel block INSIDE a macro body: `macro mp a b { < X a | X b | { X r[3] } > }  mp r[0] r[1]`, and the same
+with the branches rotated -/
+def mpBody (l : List Stmt) : Stmt := seq [par l]
+def e2 (l : List Stmt) : Circuit := {
+  registers := [R4],
+  macros := [{ name := "mp", params := [("a", .none), ("b", .none)], body := mpBody l }],
+  body := seq [.gate "mp" (gM "mp" ["a", "b"]) [("a", qv 0), ("b", qv 1)]] }
+def brs : List Stmt := [X (.param "a" .none), X (.param "b" .none), seq [X (qv 3)]]
+def brs' : List Stmt := [seq [X (qv 3)], X (.param "a" .none), X (.param "b" .none)]
+
+example : PermParC (e2 brs) (e2 brs') :=
+  ⟨.refl _,
+   .cons ⟨rfl, rfl, PermPar.inBlock (pre := []) (post := [])
+     (PermPar.here (List.perm_append_comm (l₁ := [X (.param "a" .none), X (.param "b" .none)]) (l₂ := [seq [X (qv 3)]])))⟩ .nil,
+   rfl⟩
+example : usedCircuit (e2 brs) = .ok [("r", [0, 1, 3])] := by rfl
+example : usedCircuit (e2 brs') = .ok [("r", [3, 0, 1])] := by rfl
+example : checkDisjoint (e2 brs) = .ok () ∧ checkDisjoint (e2 brs') = .ok () := ⟨by rfl, by rfl⟩
+
 end Examples
 
 end Jaqal.UsedQubits
@@ -423,3 +535,7 @@ end Jaqal.UsedQubits
 #print axioms Jaqal.UsedQubits.C13_exact_spec_stmt
 #print axioms Jaqal.UsedQubits.C13_exact_spec
 #print axioms Jaqal.UsedQubits.C13_exact_bridge
+#print axioms Jaqal.UsedQubits.C13_orderC_used
+#print axioms Jaqal.UsedQubits.C13_orderC_accept
+#print axioms Jaqal.UsedQubits.C13_orderC_reject
+#print axioms Jaqal.UsedQubits.C13_order_state_perm
